@@ -20,6 +20,13 @@ for p in "$@"; do
   out=$(cd /verif && SNT_SRC="$wt/src" ./check "$p" --tier quick --no-selftest --no-evidence 2>&1)
   rc=$?
   echo "  check $p exit=$rc $(echo "$out" | grep -c '^VIOLATION') violation line(s)"
+  if [ -n "$SAVE_CORPUS" ]; then
+    # keep the minimised histories as pinned corpus entries (replayed by every run)
+    mkdir -p "/verif/corpus/$p"; n=0
+    for f in $(echo "$out" | sed -n 's/^VIOLATION property=[A-Z0-9]* replay=//p' | head -4); do
+      n=$((n+1)); cp "$f" "/verif/corpus/$p/$id-$n.json"
+    done
+  fi
   echo "$out" | grep '^violation' | head -3 | cut -c1-400 | sed 's/^/    /'
 done
 cd /; git -C /repo worktree remove --force "$wt"
